@@ -17,7 +17,9 @@
  *      (c12-<kind>-<op>), a valid op whose result differs from the reference (…-ref), public and private view
  *      disagree (…-inconsistent), a crash in a forked probe (…-crash).
  * Known findings are reported with their own signatures (kf-c12-…).
- * Range/Slice `get` runs first in a forked child (signed overflow in Range_Get is undefined behaviour). */
+ * Range/Slice `get` runs first in a forked child: a signed overflow in Range_Get (undefined behaviour, the defect repaired by
+ * fix 81e7452) kills the child under UBSan and is reported as an ordinary violation (c12-range-get-crash).
+ * A Range takes any int64 start / stop / step for which Range_Len itself does not overflow (range_len_ok). */
 #include "common.h"
 #include <inttypes.h>
 #include <signal.h>
@@ -346,18 +348,30 @@ static const char* ref_cast(int ty, const HVal* v) { return v->tag == ty ? NULL 
 static int nonheap(HObj* h) { return h->alloc == AllocStack || h->alloc == AllocStatic; }
 static HVal zero_of(int ty) { HVal z; memset(&z, 0, sizeof z); z.tag = (char)ty; return z; }
 
-static int64_t ref_range_len(int64_t start, int64_t stop, int64_t step) {
-  if (step == 0) return 0; int64_t n = 0;
-  if (step > 0) { for (__int128 x = start; x < stop && n < 100000000; x += step) n++; }
-  else { for (__int128 x = (__int128)stop - 1; x >= start && n < 100000000; x += step) n++; }
-  return n;
+/* number of elements of range(start, stop, step), from the definition: the values start, start+|step|, … below stop
+   (a negative step enumerates the same count downwards from stop-1); step 0 has none.  128-bit arithmetic: exact for
+   every int64 triple. */
+static __int128 ref_range_len(int64_t start, int64_t stop, int64_t step) {
+  if (step == 0 || stop <= start) return 0;
+  __int128 width = (__int128)stop - start, s = step > 0 ? (__int128)step : -(__int128)step;
+  return (width + s - 1) / s;                      /* ceil(width / |step|) */
 }
+/* Range_Len computes ((stop-1) - start) / ±step + 1 in int64_t: the triples for which none of that overflows */
+static int range_len_ok(int64_t start, int64_t stop, int64_t step) {
+  if (step == 0 || stop <= start) return 1;
+  if ((__int128)stop - 1 - start > INT64_MAX) return 0;
+  if (step == INT64_MIN) return 0;
+  return ref_range_len(start, stop, step) <= INT64_MAX;
+}
+static int range_small(int64_t a, int64_t b, int64_t c) { return a >= -1000000 && a <= 1000000 && b >= -1000000 && b <= 1000000 && c >= -1000000 && c <= 1000000; }
+/* documented: an index outside [-len, len) raises IndexOutOfBoundsError — for every range (step 0: every index) and every
+   int64 index; inside, element number i (from the end when negative) */
 static const char* ref_range_get(int64_t start, int64_t stop, int64_t step, const HVal* k, int64_t* out) {
   if (k->tag == 'N') return E_VALUE; if (k->tag != 'i') return E_CLASS;
-  int64_t L = ref_range_len(start, stop, step); __int128 i = k->i;
-  if (i < -(__int128)L || i >= L) return E_IOOB;
+  __int128 L = ref_range_len(start, stop, step); __int128 i = k->i;
+  if (i < -L || i >= L) return E_IOOB;
   if (i < 0) i += L;
-  *out = step > 0 ? (int64_t)(start + step * i) : (int64_t)((__int128)stop - 1 + step * i);
+  *out = step > 0 ? (int64_t)(start + (__int128)step * i) : (int64_t)((__int128)stop - 1 + (__int128)step * i);
   return NULL;
 }
 static Shadow* seq_shadow(int id) { HObj* b = &objs[id]; return (b->kind == K_ARR || b->kind == K_LST || b->kind == K_TUP) ? b->sh : NULL; }
@@ -456,7 +470,7 @@ static const char* ref_apply(HObj* h, Op* op, RefOut* out) {
     case K_STR:
       switch (op->code) {
         case OP_MEM: if (op->a.tag == 'N') return E_VALUE; strcpy(out->text, (op->a.tag == 's' && strstr(s->str, op->a.s)) ? "true" : "false"); return NULL;
-        case OP_REM: { if (op->a.tag == 'N') return E_VALUE; if (op->a.tag != 's') return E_VALUE;   /* not contained */
+        case OP_REM: { if (op->a.tag == 'N') return E_VALUE; if (op->a.tag != 's') return E_CLASS;   /* no C string to look for (fix e60e6ec) */
           char* p = strstr(s->str, op->a.s); if (!p) return E_VALUE; size_t l = strlen(op->a.s); memmove(p, p + l, strlen(p + l) + 1); return NULL; }
         case OP_RESIZE: if (nonheap(h)) return E_VALUE; if ((size_t)op->n < strlen(s->str)) s->str[op->n] = 0; return NULL;
         case OP_LEN: sprintf(out->text, "%zu", strlen(s->str)); return NULL;
@@ -473,7 +487,7 @@ static const char* ref_apply(HObj* h, Op* op, RefOut* out) {
         case OP_GET: { int64_t x = 0; if ((e = ref_range_get(h->r0, h->r1, h->r2, &op->a, &x))) return e;
           if (h->kind == K_RNG) { sprintf(out->text, "i%" PRId64, x); return NULL; }
           Shadow* b = seq_shadow(h->base); HVal k = { 'i', x, "" }; if ((e = ref_index(b->n, &k, &idx))) return e; val_text(&b->v[idx], out->text); return NULL; }
-        case OP_LEN: sprintf(out->text, "%" PRId64, ref_range_len(h->r0, h->r1, h->r2)); return NULL;
+        case OP_LEN: sprintf(out->text, "%" PRId64, (int64_t)ref_range_len(h->r0, h->r1, h->r2)); return NULL;
         case OP_MEM: if (h->kind == K_RNG) { out->no_expectation = 1; return NULL; } return E_CLASS;
         case OP_ASSIGN: return E_VALUE;
       }
@@ -590,7 +604,7 @@ static int do_new(int id, char** w, int nw, int lineno) {   /* w: tokens after t
     else { struct String* s = fake_obj(String, sizeof(struct String), h.alloc); s->val = calloc(1, 64); strcpy(s->val, v.s); h.obj = s; }
     h.sh = new_shadow(); strcpy(h.sh->str, v.s);
   } else if (!strcmp(kind, "rng")) {
-    if (nw != 3 || !parse_small(w[0], &h.r0) || !parse_small(w[1], &h.r1) || !parse_small(w[2], &h.r2)) return 0;
+    if (nw != 3 || !parse_i64(w[0], &h.r0) || !parse_i64(w[1], &h.r1) || !parse_i64(w[2], &h.r2) || !range_len_ok(h.r0, h.r1, h.r2)) return 0;
     h.kind = K_RNG; h.obj = new(Range, $I(h.r0), $I(h.r1), $I(h.r2));
   } else if (!strcmp(kind, "slc")) {
     long b; int64_t a0, a1, a2;
@@ -633,6 +647,7 @@ static int excluded(HObj* h, Op* op) {
     if (op->nfmt == 0 || op->fkind[0] == 'L') return 0;
     return 1; }
   if ((h->kind == K_SLC || h->kind == K_ZIP) && op->code == OP_MEM) return 1;
+  if (h->kind == K_RNG && op->code == OP_MEM && !range_small(h->r0, h->r1, h->r2)) return 1;   /* Range_Mem: small fields only */
   if (h->kind == K_LST && op->code == OP_RESIZE && h->ty == 's' && (size_t)op->n > ((struct List*)h->obj)->nitems) return 1;
   if (op->code == OP_DEALLOC && h->alloc == AllocHeap) return 1;
   if (op->code == OP_DEALLOCELEM) {
@@ -716,11 +731,8 @@ static void run_line(char* l, int lineno) {
   /* ---- direct oracle ---- */
   const char* got = exc ? v_exc_name(exc) : NULL;
   if (crashed) {
-    int big = op.a.tag == 'i' && (op.a.i > ((int64_t)1 << 40) || op.a.i < -((int64_t)1 << 40));
     int cont = h->kind == K_ARR || h->kind == K_LST || h->kind == K_TUP || h->kind == K_TAB || h->kind == K_TRE;
-    if ((h->kind == K_RNG || h->kind == K_SLC) && code == OP_GET && big)
-      X("sig=kf-c12-range-get-overflow line=%d what=%s get %s: the call dies (signed overflow in Range_Get) instead of raising %s", lineno, kn, w[2], want ? want : "nothing");
-    else if (cont && op.a.tag != 'N' && op.a.tag != 0 && ((code == OP_CONCAT && op.src_id < 0) || code == OP_ASSIGN))
+    if (cont && op.a.tag != 'N' && op.a.tag != 0 && ((code == OP_CONCAT && op.src_id < 0) || code == OP_ASSIGN))
       X("sig=kf-c12-foreach-noniter line=%d what=%s %s from an object without Iter: `foreach` reads through a NULL instance pointer (the call dies) instead of raising %s", lineno, kn, on, want ? want : "ClassError");
     else
       X("sig=c12-%s-%s-crash line=%d what=the call dies (signal / sanitizer report) instead of %s%s", kn, on, lineno, want ? "raising " : "completing", want ? want : "");
@@ -728,11 +740,7 @@ static void run_line(char* l, int lineno) {
   /* (a) the exception */
   if (!ro.no_expectation) {
     if (want && !got) {
-      const char* sig = NULL;
-      if (h->kind == K_STR && code == OP_REM && op.a.tag != 's') sig = "kf-c12-string-rem-type";
-      if ((h->kind == K_RNG || h->kind == K_SLC) && code == OP_GET && h->r2 == 0) sig = "kf-c12-range-get-step0";
-      if (sig) X("sig=%s line=%d what=%s %s: invalid argument accepted silently (documented: %s), result %s", sig, lineno, kn, on, want, res);
-      else X("sig=c12-%s-%s-exc line=%d what=invalid argument not reported: expected %s, got %s", kn, on, lineno, want, res);
+      X("sig=c12-%s-%s-exc line=%d what=invalid argument not reported: expected %s, got %s", kn, on, lineno, want, res);
       n_x++; if (h->sh) shadow_sync(h);
     } else if (!want && got) {
       X("sig=c12-%s-%s-exc line=%d what=valid operation raised %s", kn, on, lineno, got); n_x++; if (h->sh) shadow_sync(h);
